@@ -8,6 +8,21 @@ echo "[setup] building vx-extract (syn-based indexer)"
 (cd vx/extract && cargo build --release --offline --quiet)
 echo "[setup] building the replay crate against /repo"
 (cd replay && cp -f /repo/Cargo.lock Cargo.lock 2>/dev/null || true; CARGO_TARGET_DIR=../build/replay-target cargo build --offline --quiet)
+echo "[setup] every replay operation named by the specs exists"
+python3 - <<'PY'
+import json, subprocess, sys
+ops = set(l.split()[0] for l in subprocess.run(["build/replay-target/debug/vx-replay", "ops"], capture_output=True, text=True).stdout.splitlines() if l.strip())
+used = set(o for v in json.load(open("spec/ops_map.json")).values() for o in v)
+for v in json.load(open("spec/properties.json")).values():
+    used |= set(v.get("fallback_ops", [])) | set(v.get("bounded_ops", []))
+for g in json.load(open("kx/groups.json")).values():
+    for h in g["harnesses"]:
+        used |= set(h.get("falsify_ops", []))
+missing = sorted(used - ops)
+if missing:
+    sys.exit(f"[setup] replay operations referenced but not defined in replay/src: {missing}")
+print(f"[setup] {len(used)} referenced operations, all defined ({len(ops)} in the replay crate)")
+PY
 echo "[setup] audit of the assumed std specifications against the real std"
 python3 vx/audit_std.py
 echo "[setup] Verus canary"
